@@ -36,7 +36,7 @@ from ..rules import node_calls, event_facts, check_take_and_clear, settle_sites
 from ..mutate import mutate, remove_stmts, replace_expr, replace_stmt, parse_stmt, parse_expr
 from ..model import AnalysisError
 from ..x_guardflow import ClassEffects, guard_facts, has, fold_cfg, UNKNOWN, expand_expr, resolve_at, reaching_value, missing_effect, edge_facts, as_aug
-from ..x_iostream import read_end_mode, normalised
+from ..x_iostream import read_end_mode, normalised, close_completes_reads
 
 TECHNIQUE = "must-pass-through on the CFG, finite-domain folding of the position predicate, exception-escape fixpoint, paired-update and take-and-clear lints"
 EXPLANATION = (
@@ -849,8 +849,10 @@ def read_into(ck):
     # names
     avail = [st for st in q.walk_body(fi.node) if isinstance(st, ast.Assign) and q.dotted(st.value) == "self._read_buffer_size" and isinstance(st.targets[0], ast.Name)]
     nlen = [st for st in q.walk_body(fi.node) if isinstance(st, ast.Assign) and q.is_call(st.value, "len") and q.dotted(st.value.args[0]) == buf and isinstance(st.targets[0], ast.Name)]
-    ck.need(len(avail) == 1 and len(nlen) == 1, "read_into does not name the buffered amount and len(buf)")
-    av, nn = avail[0].targets[0].id, nlen[0].targets[0].id
+    ck.need(len(avail) <= 1 and len(nlen) == 1, "read_into does not name len(buf) / samples the buffered amount more than once")
+    # the buffered amount: a local sampled from _read_buffer_size, or the attribute itself when it is re-read
+    av = avail[0].targets[0].id if avail else "self._read_buffer_size"
+    nn = nlen[0].targets[0].id
 
     def stores_buf(m):
         return m.kind == "stmt" and isinstance(m.ast, ast.Assign) and isinstance(m.ast.targets[0], ast.Subscript) and q.dotted(m.ast.targets[0].value) == buf
@@ -868,10 +870,11 @@ def read_into(ck):
             "deleted": dele,
             "saved": save,
             "mode": lambda m: m.kind == "stmt" and isinstance(m.ast, ast.Assign) and "self._user_read_buffer" in q.assigned_paths(m.ast) and isinstance(m.ast.value, ast.Constant) and m.ast.value.value is True,
-            "size": lambda m: m.kind == "stmt" and isinstance(m.ast, ast.Assign) and "self._read_buffer_size" in q.assigned_paths(m.ast) and q.dotted(m.ast.value) == av,
+            "size": (lambda m: m.kind == "stmt" and isinstance(m.ast, ast.Assign) and "self._read_buffer_size" in q.assigned_paths(m.ast) and q.dotted(m.ast.value) == av) if avail else (lambda m: m.kind == "entry"),
             "want": lambda m: m.kind == "stmt" and isinstance(m.ast, ast.Assign) and "self._read_bytes" in q.assigned_paths(m.ast) and q.dotted(m.ast.value) == nn,
             "started": node_calls("self._start_read"),
         },
+        None if avail else {"size": lambda m: m.kind == "stmt" and isinstance(m.ast, (ast.Assign, ast.AugAssign)) and "self._read_buffer_size" in q.assigned_paths(m.ast)},
         cond_facts=False,
     )
     for m in tis:
@@ -953,6 +956,7 @@ def run(ck):
     ck.rule("C11.loop-returns-fresh-pos", "_read_to_buffer_loop returns only _find_read_pos results computed after its last fill")
     ck.rule("C11.finish-read", "_finish_read: take-and-clear of the read future; result is _consume(size) or, in caller-buffer mode only, size")
     ck.rule("C11.user-buffer-restore", "_finish_read swaps the internal buffer back and re-measures it when leaving caller-buffer mode")
+    ck.rule("C11.close-completes-reads", "close() - for any reason, clean or error - finishes a pending until-close read and checks any other pending read against the buffered data before closing the fd (buffered bytes that satisfy a pending read are delivered, not dropped)")
     ck.rule("C11.read-end-mode", "every function that ends a read (self._read_future = None) leaves caller-buffer mode, so the next read returns bytes from the internal buffer")
     ck.rule("C11.consume-pair", "_consume: copy [:loc], then delete [:loc] and decrease the size by loc, together and once; empty only for loc == 0")
     ck.rule("C11.consume-only-shrinker", "_consume (called only by _finish_read) is the only code that removes bytes from the read buffer, besides read_into's hand-over")
@@ -969,6 +973,7 @@ def run(ck):
     consume(ck)
     fill(ck)
     read_into(ck)
+    close_completes_reads(ck, "C11.close-completes-reads")
     n = read_end_mode(ck, "C11.read-end-mode")
     ck.floor("C11.read-end-mode", n, 1, "read-ending sites")
 
@@ -1091,6 +1096,7 @@ def _search_cache(overlap: bool):
 
 
 MUTANTS = [
+    ("seeded C11-adv4: close() completes a satisfiable pending read only for clean closes", _in(B + ".close", replace_expr(lambda n: isinstance(n, ast.Compare) and _src(n) == "self._read_future is not None", lambda n: parse_expr("self._read_future is not None and not exc_info"))), "C11.close-completes-reads"),
     ("seeded C11-adv1: search-position cache without the len(delimiter)-1 overlap", _search_cache(False), "C11.search-coverage"),
     ("regex search resumes at the old buffer size", _in(B + "._find_read_pos", replace_expr(lambda n: isinstance(n, ast.Call) and _src(n.func) == "self._read_regex.search", lambda n: ast.Call(func=n.func, args=n.args + [parse_expr("self._read_buffer_size - 1")], keywords=[]))), "C11.search-coverage"),
     ("delimiter position returned unchecked", _in(B + "._find_read_pos", _nth(_is_check, 0, _delete)), "C11.max-bytes-checked"),
